@@ -340,3 +340,18 @@ func cp(b []byte) []byte {
 	copy(c, b)
 	return c
 }
+
+// rleafVersion returns the version of the leaf holding k (0 = absent).
+func rleafVersion(n *RNode, k []byte) int64 {
+	for n != nil && !n.leaf() {
+		if bytes.Compare(k, n.Key) < 0 {
+			n = n.Left
+		} else {
+			n = n.Right
+		}
+	}
+	if n != nil && bytes.Equal(n.Key, k) {
+		return n.Version
+	}
+	return 0
+}
